@@ -34,6 +34,11 @@ def add_op(kind, name, revs):
     return "a:%s:%s:%s" % (kind, hx(name), ",".join(hx(r) if r else "_" for r in revs) if revs else "-")
 
 
+def text_op(hdrs):
+    return "t:" + "+".join("%s;%s;%s" % (k, hx(n), ",".join(hx(r) if r else "_" for r in revs) if revs else "-")
+                           for k, n, revs in hdrs)
+
+
 def find_op(kind, name, rev):
     return "f:%s:%s:%s" % (kind, hx(name), "n" if rev is None else ("r" + (hx(rev) if rev else "_")))
 
@@ -69,6 +74,24 @@ def gen_registry(tier, rnd):
     if tier != "quick":
         for seq in itertools.product(small, repeat=5):
             cases.append(" ".join(["registry"] + [add_op(*h) for h in seq] + tail))
+    # texts holding several modules (Parse is all or nothing): every pair of texts of 1..2 headers over 4 headers, then
+    # random histories mixing single-module and 1..3-module texts (duplicate pairs inside one text, duplicates of loaded
+    # ones, a good module before / after the offending one)
+    tpool = [("m", "m", []), ("m", "m", [D2]), ("s", "m", [D2]), ("m", "mm", [D2])]
+    texts = [[h] for h in tpool] + [[a, b] for a in tpool for b in tpool]
+    for t1 in texts:
+        for t2 in texts:
+            cases.append(" ".join(["registry", text_op(t1), text_op(t2)] + tail))
+    for _ in range(1500 if tier == "quick" else 20000):
+        ops = []
+        for _ in range(rnd.randint(2, 6)):
+            if rnd.random() < 0.3:
+                ops.append(add_op(*rnd.choice(small)))
+            else:
+                ops.append(text_op([rnd.choice(small) for _ in range(rnd.randint(1, 3))]))
+            if rnd.random() < 0.3:
+                ops.append(find_op(rnd.choice("ms"), rnd.choice(["m", "mm"]), rnd.choice([None, D1, D2, D3])))
+        cases.append(" ".join(["registry"] + ops + tail))
     # random longer histories, finds interleaved, odd names and revisions
     names = ["m", "mm", "m-x", "a.b", "M", "m@" + D2, "m@"]
     revs = [D1, D2, D3, "", "2020-1-01", "zzz", D2 + "x", "2020", "@", "2020-01-01@1"]
@@ -645,6 +668,8 @@ def metamorphic(res, cases, go, stats):
     for c, g in zip(cases, go):
         t = c.split()
         if t[0] != "registry":
+            continue
+        if any(x.startswith("t:") for x in t[1:]):
             continue
         adds = [x for x in t[1:] if x.startswith("a:")]
         if len(adds) < 2 or any(x.startswith("f:") for x in t[1:1 + len(adds)]):
